@@ -4,7 +4,15 @@ import (
 	"bytes"
 	"encoding/binary"
 	"fmt"
+	"go/ast"
+	"go/parser"
+	"go/token"
+	"path/filepath"
 	"reflect"
+	"sort"
+	"strconv"
+	"strings"
+	"sync"
 
 	"github.com/Eyevinn/mp4ff/mp4"
 )
@@ -57,6 +65,18 @@ func e1ByteCands(x []byte, whole bool, fn func(c e1Cand)) {
 				y := mut()
 				binary.BigEndian.PutUint32(y[i:], v)
 				fn(e1Cand{Kind: "w32", Desc: fmt.Sprintf("word at %d <- %#x", i, v), Pos: i, X: y})
+			}
+		}
+		// constants the library itself compares against (harvested from the source) and their neighbours: the
+		// first 40 bytes of a box (where counts and lengths live), everywhere in whole-box mode
+		if i%4 == 0 && i+4 <= n && i >= 8 && (whole || i < 40) {
+			for _, v := range e1SourceConsts() {
+				if binary.BigEndian.Uint32(x[i:]) == v {
+					continue
+				}
+				y := mut()
+				binary.BigEndian.PutUint32(y[i:], v)
+				fn(e1Cand{Kind: "w32", Desc: fmt.Sprintf("word at %d <- %d (source constant)", i, v), Pos: i, X: y})
 			}
 		}
 		if i%2 == 0 && i+2 <= n {
@@ -317,4 +337,73 @@ func e1StructCands(x []byte, fn func(c e1Cand)) {
 			}
 		}
 	}
+}
+
+var e1ConstCache struct {
+	once sync.Once
+	v    []uint32
+}
+
+// e1SourceConsts returns the integer literals that appear in comparisons (and in const declarations) in the
+// library's mp4 package, with their neighbours v-1 and v+1, excluding the values the fixed alphabet already has.
+func e1SourceConsts() []uint32 {
+	e1ConstCache.once.Do(func() {
+		vals := map[uint64]bool{}
+		files, _ := filepath.Glob(filepath.Join(repoRoot(), "mp4", "*.go"))
+		fset := token.NewFileSet()
+		for _, f := range files {
+			if strings.HasSuffix(f, "_test.go") {
+				continue
+			}
+			af, err := parser.ParseFile(fset, f, nil, 0)
+			if err != nil {
+				continue
+			}
+			lit := func(e ast.Expr) {
+				if bl, ok := e.(*ast.BasicLit); ok && bl.Kind == token.INT {
+					if v, err := strconv.ParseUint(bl.Value, 0, 64); err == nil && v >= 2 && v <= 0xffffffff {
+						vals[v] = true
+					}
+				}
+			}
+			ast.Inspect(af, func(n ast.Node) bool {
+				switch x := n.(type) {
+				case *ast.BinaryExpr:
+					switch x.Op {
+					case token.LSS, token.GTR, token.LEQ, token.GEQ, token.EQL, token.NEQ:
+						lit(x.X)
+						lit(x.Y)
+					}
+				case *ast.GenDecl:
+					if x.Tok == token.CONST {
+						for _, sp := range x.Specs {
+							for _, v := range sp.(*ast.ValueSpec).Values {
+								lit(v)
+							}
+						}
+					}
+				}
+				return true
+			})
+		}
+		for _, v := range []uint64{1024, 65536} { // always present, also if the scan finds nothing
+			vals[v] = true
+		}
+		out := map[uint32]bool{}
+		for v := range vals {
+			for _, d := range []int64{-1, 0, 1} {
+				if w := int64(v) + d; w >= 2 && w <= 0xffffffff {
+					out[uint32(w)] = true
+				}
+			}
+		}
+		for _, v := range []uint32{0x7fffffff, 0x80000000, 0xffffffff, 0x01000000} {
+			delete(out, v)
+		}
+		for v := range out {
+			e1ConstCache.v = append(e1ConstCache.v, v)
+		}
+		sort.Slice(e1ConstCache.v, func(i, j int) bool { return e1ConstCache.v[i] < e1ConstCache.v[j] })
+	})
+	return e1ConstCache.v
 }
